@@ -197,6 +197,12 @@ fn gen_node_map(rng: &mut Rng, max_nodes: u64) -> HashMap<String, Vec<SlotRange>
 }
 
 fn gen_meta(rng: &mut Rng) -> ProxyClusterMeta {
+    gen_meta_sized(rng, 4)
+}
+
+/// `max_peers` > 100: a large cluster (hundreds to thousands of peer nodes), whose compressed form
+/// exceeds the buffers of the gzip writer
+fn gen_meta_sized(rng: &mut Rng, max_peers: u64) -> ProxyClusterMeta {
     let mut cfg = ClusterConfig::default();
     let _ = cfg.set_field("compression_strategy", *rng.pick(&["disabled", "set_get_only", "allow_all"]));
     let _ = cfg.set_field("migration_scan_count", &rng.range(1, 1000).to_string());
@@ -209,7 +215,16 @@ fn gen_meta(rng: &mut Rng) -> ProxyClusterMeta {
         ClusterMapFlags { force: rng.chance(1, 4), compress: false },
         ClusterName::try_from(name.as_str()).unwrap_or_else(|_| ClusterName::empty()),
         gen_node_map(rng, 3),
-        gen_node_map(rng, 4),
+        if max_peers > 100 {
+            let mut m = HashMap::new();
+            while (m.len() as u64) < max_peers {
+                let k = rng.range(1, 2);
+                m.insert(gen_addr(rng), (0..k).map(|_| gen_slot_range(rng)).collect());
+            }
+            m
+        } else {
+            gen_node_map(rng, max_peers)
+        },
         cfg,
     )
 }
@@ -256,7 +271,12 @@ impl Check for WireCheck {
     }
     fn gen_plan(&self, seed: u64, index: u64, _tier: Tier) -> Value {
         let live = index % 16 == 15;
-        json!({"engine": "wire", "seed": seed, "live": live, "ops": (0..if live { 1 } else { 24 }).collect::<Vec<u64>>()})
+        let mut ops: Vec<u64> = (0..if live { 1 } else { 24 }).collect();
+        if !live && index % 4 == 1 {
+            // one large cluster (600-3000 peer nodes)
+            ops.push(1000 + index);
+        }
+        json!({"engine": "wire", "seed": seed, "live": live, "ops": ops})
     }
     fn execute(&self, plan: &Value, want_sample: bool) -> RunRecord {
         if plan["live"].as_bool().unwrap_or(false) {
@@ -303,7 +323,16 @@ fn run_generated(plan: &Value, want_sample: bool) -> RunRecord {
     for op in plan["ops"].as_array().cloned().unwrap_or_default() {
         let mut rng = Rng::new(seed, "wire").sub("value", op.as_u64().unwrap_or(0));
         // ---- cluster metadata
-        let meta = gen_meta(&mut rng);
+        let huge = op.as_u64().unwrap_or(0) >= 1000;
+        let meta = if huge {
+            let n_peers = *rng.pick(&[600u64, 1500, 3000]);
+            gen_meta_sized(&mut rng, n_peers)
+        } else {
+            gen_meta(&mut rng)
+        };
+        if huge {
+            rec.probe("large_cluster_values");
+        }
         let want = cmeta_of(&meta);
         if want.local.values().chain(want.peer.values()).flatten().any(|r| !r.tag.is_empty() && r.ranges.len() > 1) {
             tagged_multi += 1;
@@ -342,6 +371,10 @@ fn run_generated(plan: &Value, want_sample: bool) -> RunRecord {
                 }
             },
             Err(e) => rec.violate(Violation::new("C17", "compress-failed", format!("{:?}", e))),
+        }
+        if huge {
+            // round trips only: the token-level faults are quadratic in the message size
+            continue;
         }
         // ---- message faults on the plain token list
         let check_corrupt = |rec: &mut RunRecord, toks: &[String], kind: &str, class: &str, what: String| {
